@@ -243,3 +243,6 @@ func (f *Frame) bindNamesBefore(env *SpecEnv, header *ssa.BasicBlock) {
 		}
 	}
 }
+
+// ghost location counting the writes to a package-level map ("pkg.Name")
+func mapWritesLoc(g string) string { return "G:$mapwrites:" + g }
